@@ -2,6 +2,7 @@ package props
 
 import (
 	"context"
+	"encoding/json"
 	"fmt"
 	"net/http"
 	"net/url"
@@ -9,6 +10,7 @@ import (
 	"strings"
 	"testing"
 
+	jose "github.com/go-jose/go-jose/v4"
 	"github.com/zitadel/oidc/v3/pkg/oidc"
 
 	"verif/sim/kernel"
@@ -27,12 +29,14 @@ type pendingAuth struct {
 	nonce    string
 	state    string
 	scopes   []string
+	viaObject bool
 }
 
 type issuedCode struct {
 	code      string
 	ar        *world.AuthReq
 	verifier  string
+	method    string // the PKCE method the authorization request carried ("" = no challenge)
 	successes int
 	attempts  int
 }
@@ -72,13 +76,25 @@ func (cw *codeWorld) startAuth(ch *kernel.Chooser, client string) string {
 			ap.Challenge = p.verifier
 		}
 	}
+	if key, ok := w.ClientKeys[client]; ok && w.Conf.RequestObjectSupported && ch.Bool(1, 2) {
+		// state, nonce and the PKCE parameters travel only inside a request object signed with the client's key
+		p.viaObject = true
+		ro := map[string]any{"iss": client, "aud": []string{w.Issuer}, "client_id": client, "response_type": "code", "state": p.state, "nonce": p.nonce}
+		if ap.Challenge != "" {
+			ro["code_challenge"], ro["code_challenge_method"] = ap.Challenge, ap.ChallengeMethod
+		}
+		payload, _ := json.Marshal(ro)
+		ap.State, ap.Nonce, ap.Challenge, ap.ChallengeMethod = "", "", "", ""
+		ap.Extra = url.Values{"request": {signRaw(payload, jose.RS256, key.Key, key.KeyID)}}
+		cw.o.Probe("authorization-via-request-object")
+	}
 	resp, id := w.Authorize(b, ap)
 	if id == "" {
-		return fmt.Sprintf("start %s pkce=%s -> refused (%d)", client, p.method, resp.Status)
+		return fmt.Sprintf("start %s pkce=%s object=%v -> refused (%d)", client, p.method, p.viaObject, resp.Status)
 	}
 	p.id = id
 	cw.pending = append(cw.pending, p)
-	return fmt.Sprintf("start %s pkce=%q -> %s", client, p.method, id)
+	return fmt.Sprintf("start %s pkce=%q object=%v -> %s", client, p.method, p.viaObject, id)
 }
 
 func (cw *codeWorld) login(ch *kernel.Chooser) string {
@@ -110,7 +126,7 @@ func (cw *codeWorld) login(ch *kernel.Chooser) string {
 	}
 	code := ar.Params.Get("code")
 	cw.w.Ledger.Codes[code] = p.id
-	cw.codes = append(cw.codes, &issuedCode{code: code, ar: snap, verifier: p.verifier})
+	cw.codes = append(cw.codes, &issuedCode{code: code, ar: snap, verifier: p.verifier, method: p.method})
 	cw.o.Probe("code-issued")
 	return fmt.Sprintf("login %s as %s -> code %s", p.id, user, short(code))
 }
@@ -151,8 +167,14 @@ func (cw *codeWorld) redeem(step int, ch *kernel.Chooser) string {
 			form.Del("redirect_uri")
 			devs = append(devs, "missing-redirect")
 		case 4:
-			form.Set("code_verifier", "wrong-verifier-0123456789abcdefghijklmnopqrstuvwxyz-ABCDEFG")
-			devs = append(devs, "wrong-verifier")
+			if ic.method == "S256" && ch.Bool(1, 2) {
+				// the public challenge string itself (what an observer of the authorization request knows)
+				form.Set("code_verifier", world.S256(ic.verifier))
+				devs = append(devs, "challenge-as-verifier")
+			} else {
+				form.Set("code_verifier", "wrong-verifier-0123456789abcdefghijklmnopqrstuvwxyz-ABCDEFG")
+				devs = append(devs, "wrong-verifier")
+			}
 		case 5:
 			form.Del("code_verifier")
 			devs = append(devs, "missing-verifier")
@@ -258,18 +280,14 @@ func (cw *codeWorld) evalRedeem(step int, desc string, ic *issuedCode, form url.
 	if form.Get("redirect_uri") != ic.ar.RedirectURI {
 		viol("redirect-uri", "presented redirect_uri %q, request used %q", form.Get("redirect_uri"), ic.ar.RedirectURI)
 	}
-	if ic.ar.Challenge != nil {
-		v := form.Get("code_verifier")
-		ok := false
-		switch ic.ar.Challenge.Method {
-		case oidc.CodeChallengeMethodS256:
-			ok = v != "" && world.S256(v) == ic.ar.Challenge.Challenge
-		default:
-			ok = v != "" && v == ic.ar.Challenge.Challenge
+	if ic.method != "" {
+		// judged by what the authorization request carried (the client's verifier and method), not by what the
+		// provider recorded of it
+		if v := form.Get("code_verifier"); v == "" || v != ic.verifier {
+			viol("pkce", "request carried a %s challenge for verifier %q but verifier %q was accepted", ic.method, ic.verifier, v)
 		}
-		if !ok {
-			viol("pkce", "request carried a %s challenge but verifier %q was accepted", ic.ar.Challenge.Method, v)
-		}
+	} else if ic.ar.Challenge != nil {
+		viol("pkce", "the authorization request carried no challenge but the provider recorded one (%+v)", *ic.ar.Challenge)
 	} else if ownerClient.Public() {
 		viol("pkce-public", "public client redeemed a code that had no challenge")
 	}
